@@ -32,19 +32,19 @@ theorem C19_init_tests : Jap.Gen.pathInitTests =
      ("r", "access:R_OK"), ("w", "access:W_OK"), ("x", "access:X_OK"), ("D", "isdir"), ("F", "is_fifo|isfile"),
      ("R", "access:R_OK"), ("W", "access:W_OK"), ("X", "access:X_OK")] := by decide
 
-/-- the statements of `change_to_path_dir` that decide the directory, in source order: exactly what
+/-- the statements of `change_to_path_dir`, in source order, with the protected region marked: exactly what
 `objDir`/`cfgDir` (the path's `.absolute` AS NAMED — no `realpath`, so a symlinked config file belongs
-to the directory it is named in —, `dirname` unless the mode has `d`), `enter` (`set`, remember
-`os.getcwd()`, `chdir(abspath(·))`, unconditionally) and `leave` (`reset`, `chdir` back, in `finally`)
-transcribe -/
+to the directory it is named in —, `dirname` unless the mode has `d`), `enterF` (`set`; inside the `try`: remember
+`os.getcwd()`, `os.chdir` of the UN-normalised string, unconditionally; `abspath` only for the yielded value) and the
+`finally` (`reset`, `chdir` back to the remembered directory — when `os.chdir` itself raised: to where the process still is) transcribe -/
 theorem C19_path_dir_steps : Jap.Gen.pathDirSteps =
     ["path_dir = current_path_dir.get()", "chdir = False", "if path is not None",
      "if path._url_data and (path.is_url or path.is_fsspec)", "scheme = path._url_data.scheme", "path_dir = path._url_data.url_path",
      "scheme = ''", "path_dir = path.absolute", "chdir = True",
      "if 'd' not in path.mode", "path_dir = os.path.dirname(path_dir)", "path_dir = scheme + path_dir",
-     "token = current_path_dir.set(path_dir)", "if chdir and path_dir", "chdir = os.getcwd()",
-     "path_dir = os.path.abspath(path_dir)", "os.chdir(path_dir)",
-     "current_path_dir.reset(token)", "if chdir", "os.chdir(chdir)"] := by decide
+     "token = current_path_dir.set(path_dir)", "prev_cwd = None", "try:", "if chdir and path_dir", "prev_cwd = os.getcwd()",
+     "os.chdir(path_dir)", "path_dir = os.path.abspath(path_dir)", "yield path_dir",
+     "finally:", "current_path_dir.reset(token)", "if prev_cwd is not None", "os.chdir(prev_cwd)"] := by decide
 
 /-- a mode string accepted by `_check_mode` has the structure `__init__` relies on -/
 theorem C19_checkMode_valid (s : List Char) (h : checkModeL table s = true) : ValidMode (Mode.ofList s) := by
@@ -342,47 +342,61 @@ example : (runLoad ⟨"c.yaml".toList, [.path "x".toList, .sub "s/d.yaml".toList
 /-! ## the bracket over a file system with symbolic links
 
 `FS D`: any automaton on physical directories (`step d name`: sub-directory, `..`, or a symbolic
-link to a directory, followed); `runItemsF`: the loader with `os.chdir(os.path.abspath(dirname(file)))`
-resolved by the kernel; `specItemsF`: every value belongs to the directory in which the KERNEL finds
-the file that spells it (`trueDir`; for a file that is itself a link: the link's directory). -/
+link to a directory, followed); `runItemsF`: the loader with `os.chdir(dirname(file))` resolved by
+the kernel (the bracket since commit 6e92c59); `specItemsF`: every value belongs to the directory in
+which the KERNEL finds the file that spells it (`trueDir`; for a file that is itself a link: the
+link's directory). -/
 
 section FSModel
 variable {D : Type} [DecidableEq D]
 
-/-- **C19_fs_cwd_restored**: for EVERY file system and every load program — successful or failing
-at any point, `os.chdir` failures included — the process working directory afterwards is the one
-before; and a load that succeeds restores the context variable `current_path_dir` as well -/
+/-- **C19_fs_state_restored**: for EVERY file system and every load program — successful or failing
+at any point, `os.chdir` raising included — the process working directory AND the context variable
+`current_path_dir` afterwards are what they were before -/
+theorem C19_fs_state_restored (fs : FS D) (items : List Item) (s : StF D) :
+    (runItemsF fs items s).st = s :=
+  (runItemsF_spec fs items s).1
+
 theorem C19_fs_cwd_restored (fs : FS D) (items : List Item) (s : StF D) :
-    (runItemsF fs items s).st.cwd = s.cwd ∧ ((runItemsF fs items s).ok = true → (runItemsF fs items s).st = s) :=
-  ⟨(runItemsF_spec fs items s).1, (runItemsF_spec fs items s).2.1⟩
+    (runItemsF fs items s).st.cwd = s.cwd := by
+  rw [C19_fs_state_restored]
 
-/-- **C19_fs_rel_to_cfg (partial)**: when every bracketed file exists, the lexical `abspath` of its
-directory is where the kernel goes anyway (`lexOK`) and list files survive their second resolution
-(`goodItemsF`), the whole state is restored, the load succeeds iff no item fails, and every relative
-path, at any nesting depth, is resolved against the physical directory of the file that spells it -/
-theorem C19_fs_rel_to_cfg_partial (fs : FS D) (items : List Item) (s : StF D) (hg : goodItemsF fs s.cwd items = true) :
-    (runItemsF fs items s).st = s ∧ (runItemsF fs items s).trace <+: specItemsF fs s.cwd items ∧
+/-- **C19_fs_rel_to_cfg** (full strength, since commit 6e92c59; no hypothesis on the file system, the
+spellings or the program): every relative path, at any nesting depth, is resolved against the physical
+directory of the file that spells it — the trace is a prefix of, and on success equal to, the static
+assignment `specItemsF` — and the load succeeds exactly when no item fails and every bracketed file
+exists where the kernel looks for it, list files also at their second resolution (`existItemsF`) -/
+theorem C19_fs_rel_to_cfg (fs : FS D) (items : List Item) (s : StF D) :
+    (runItemsF fs items s).trace <+: specItemsF fs s.cwd items ∧
     ((runItemsF fs items s).ok = true → (runItemsF fs items s).trace = specItemsF fs s.cwd items) ∧
-    (runItemsF fs items s).ok = noFailItems items :=
-  (runItemsF_spec fs items s).2.2 hg
+    (runItemsF fs items s).ok = (noFailItems items && existItemsF fs s.cwd items) :=
+  (runItemsF_spec fs items s).2
 
-/-- the hypothesis holds by itself in a file system without directory links (the setting of the
-string model above): there the theorem is the full property for every program whose files exist -/
-theorem C19_fs_rel_to_cfg_tree (fs : FS D) (ht : fs.TreeLike) (items : List Item) (s : StF D)
-    (he : existItemsF fs s.cwd items = true) :
-    (runItemsF fs items s).st = s ∧ (runItemsF fs items s).trace <+: specItemsF fs s.cwd items ∧
-    ((runItemsF fs items s).ok = true → (runItemsF fs items s).trace = specItemsF fs s.cwd items) ∧
-    (runItemsF fs items s).ok = noFailItems items :=
-  C19_fs_rel_to_cfg_partial fs items s (goodItemsF_of_tree fs ht items s.cwd he)
+/-- the only hypothesis left for "succeeds iff nothing fails": the files exist -/
+theorem C19_fs_rel_to_cfg_exist (fs : FS D) (items : List Item) (s : StF D) (he : existItemsF fs s.cwd items = true) :
+    (runItemsF fs items s).ok = noFailItems items := by
+  rw [(C19_fs_rel_to_cfg fs items s).2.2, he, Bool.and_true]
 
-/-- … and, in ANY file system, for every directory string without a `..` component: links on the way
-are harmless, only `link/..` is not -/
+/-- one config file given by its spelling: its own record, then its values from the directory the kernel finds it in -/
+theorem C19_fs_rel_to_cfg_load (fs : FS D) (ref : P) (items : List Item) (s : StF D) (d1 : D)
+    (h1 : trueDir fs s.cwd ref = some d1) (hok : (runItemF fs (.sub ref items) s).ok = true) :
+    (runItemF fs (.sub ref items) s).trace = resolve ref (fs.phys s.cwd) :: specItemsF fs d1 items := by
+  rw [(runItemF_spec fs (.sub ref items) s).2.2.1 hok]
+  simp [specItemF, h1]
+
+/-- where `os.path.abspath` does not change the kernel's answer — every directory string without a `..`
+component, in ANY file system … -/
 theorem C19_fs_lexOK_noDotDot (fs : FS D) (dir : P) (h : noDotDot dir = true) : lexOK fs dir = true :=
   lexOK_of_noDotDot fs dir (by simpa [noDotDot] using h)
 
+/-- … and every existing directory of a file system without directory links — -/
 theorem C19_fs_lexOK_tree (fs : FS D) (ht : fs.TreeLike) (dir : P) (d : D) (h : resolveAbs fs dir = some d) :
     lexOK fs dir = true ∧ resolveAbs fs (normAbs dir) = some d :=
   ⟨lexOK_of_tree fs ht dir d h, resolveAbs_normAbs_tree fs ht dir d h⟩
+
+/-- … the bracket before the repair entered the same directory as the bracket now -/
+theorem C19_fs_old_bracket_agrees (fs : FS D) (dir : P) (hl : lexOK fs dir = true) : oldEnterF fs dir = enterF fs dir :=
+  oldEnterF_eq_of_lexOK fs dir hl
 
 end FSModel
 
@@ -392,47 +406,40 @@ def linkFS : FS Nat :=
     [(0, "w".toList, 1), (0, "o".toList, 2), (2, "deep".toList, 3), (2, "deep2".toList, 4), (1, "link".toList, 3),
      (0, "..".toList, 0), (1, "..".toList, 0), (2, "..".toList, 0), (3, "..".toList, 2), (4, "..".toList, 2)]⟩
 
-/- Full statement of C19_fs_rel_to_cfg (FALSE of the current code, two witnesses below):
-   theorem C19_fs_rel_to_cfg (fs) (items) (s) (he : existItemsF fs s.cwd items) :
-       (runItemsF fs items s).st = s ∧ ((runItemsF fs items s).ok = true → (runItemsF fs items s).trace = specItemsF fs s.cwd items)
-         ∧ (runItemsF fs items s).ok = noFailItems items -/
-
-/-- **finding C19-abspath-through-link, silent form**: `--cfg link/../x.yaml` from `/w` reads `/o/x.yaml`
-(the kernel follows the link before `..`) but `data.txt` inside it is resolved against `/w`:
-`os.path.abspath` cancelled `link/..` lexically before `os.chdir` -/
-theorem C19_fs_rel_to_cfg_fails_link_dotdot :
+/-- regression record of repaired finding F30 (C19-abspath-through-link), silent form: `--cfg link/../x.yaml` from
+`/w` reads `/o/x.yaml` (the kernel follows the link before `..`); the bracket before 6e92c59 resolved `data.txt`
+inside it against `/w` (`os.path.abspath` cancelled `link/..` before `os.chdir`), the bracket now against `/o` -/
+theorem C19_regression_link_dotdot :
     let prog := [Item.sub "link/../x.yaml".toList [.path "data.txt".toList]]
     existItemsF linkFS 1 prog = true ∧ noFailItems prog = true ∧
+    (runItemsG oldBracket linkFS prog ⟨1, none⟩).ok = true ∧
+    (runItemsG oldBracket linkFS prog ⟨1, none⟩).trace.map (fun r => String.ofList r.abs) = ["/w/link/../x.yaml", "/w/data.txt"] ∧
     (runItemsF linkFS prog ⟨1, none⟩).ok = true ∧
-    (runItemsF linkFS prog ⟨1, none⟩).trace.map (fun r => String.ofList r.abs) = ["/w/link/../x.yaml", "/w/data.txt"] ∧
+    (runItemsF linkFS prog ⟨1, none⟩).trace.map (fun r => String.ofList r.abs) = ["/w/link/../x.yaml", "/o/data.txt"] ∧
     (specItemsF linkFS 1 prog).map (fun r => String.ofList r.abs) = ["/w/link/../x.yaml", "/o/data.txt"] := by decide
 
-/-- **the same finding, loud form**: `--cfg link/../deep2/y.yaml` names the existing `/o/deep2/y.yaml`;
-`os.chdir("/w/deep2")` raises inside `__enter__` — after `current_path_dir.set`, before the `try` —
-so the load fails although nothing in the program does, and the context variable stays set -/
-theorem C19_fs_state_not_restored :
+/-- the same, loud form: `--cfg link/../deep2/y.yaml` names the existing `/o/deep2/y.yaml`; the old bracket called
+`os.chdir("/w/deep2")`, which raised inside `__enter__` — after `current_path_dir.set`, before the `try` — so the
+load failed although nothing in the program does and the context variable stayed set; now the load succeeds -/
+theorem C19_regression_state_not_restored :
     let prog := [Item.sub "link/../deep2/y.yaml".toList [.path "data.txt".toList]]
     existItemsF linkFS 1 prog = true ∧ noFailItems prog = true ∧
-    (runItemsF linkFS prog ⟨1, none⟩).ok = false ∧
-    (runItemsF linkFS prog ⟨1, none⟩).st = ⟨1, some "/w/link/../deep2".toList⟩ := by decide
+    (runItemsG oldBracket linkFS prog ⟨1, none⟩).ok = false ∧
+    (runItemsG oldBracket linkFS prog ⟨1, none⟩).st = ⟨1, some "/w/link/../deep2".toList⟩ ∧
+    (runItemsF linkFS prog ⟨1, none⟩).ok = true ∧
+    (runItemsF linkFS prog ⟨1, none⟩).st = ⟨1, none⟩ ∧
+    (runItemsF linkFS prog ⟨1, none⟩).trace.map (fun r => String.ofList r.abs) = ["/w/link/../deep2/y.yaml", "/o/deep2/data.txt"] := by decide
 
-theorem C19_fs_rel_to_cfg_full_false :
-    ¬ (∀ (fs : FS Nat) (items : List Item) (s : StF Nat), existItemsF fs s.cwd items = true →
-        (runItemsF fs items s).st = s ∧ (runItemsF fs items s).ok = noFailItems items) := by
-  intro h
-  have := h linkFS [Item.sub "link/../deep2/y.yaml".toList [.path "data.txt".toList]] ⟨1, none⟩ (by decide)
-  revert this
-  decide
-
-/-- non-vacuity of the partial theorem in a file system WITH a directory link: the link is used, without `..` after it -/
-example : goodItemsF linkFS 1
-    [.sub "link/m.yaml".toList [.path "w.bin".toList, .sub "../deep2/e.yaml".toList [.path "v.txt".toList]], .path "a.txt".toList] = true ∧
-    (runItemsF linkFS [.sub "link/m.yaml".toList [.path "w.bin".toList, .sub "../deep2/e.yaml".toList [.path "v.txt".toList]], .path "a.txt".toList]
+/-- non-vacuity in a file system WITH a directory link: three levels, through the link, `..` after it included -/
+example : existItemsF linkFS 1
+    [.sub "link/m.yaml".toList [.path "w.bin".toList, .sub "../deep2/e.yaml".toList [.path "v.txt".toList]], .sub "link/../x.yaml".toList [.path "a.txt".toList]] = true ∧
+    (runItemsF linkFS [.sub "link/m.yaml".toList [.path "w.bin".toList, .sub "../deep2/e.yaml".toList [.path "v.txt".toList]], .sub "link/../x.yaml".toList [.path "a.txt".toList]]
       ⟨1, none⟩).trace.map (fun r => String.ofList r.abs) =
-    ["/w/link/m.yaml", "/o/deep/w.bin", "/o/deep/../deep2/e.yaml", "/o/deep2/v.txt", "/w/a.txt"] := by decide
+    ["/w/link/m.yaml", "/o/deep/w.bin", "/o/deep/../deep2/e.yaml", "/o/deep2/v.txt", "/w/link/../x.yaml", "/o/a.txt"] := by decide
 
-/-- the inner leak is repaired by an enclosing bracket: the same failing config one level down leaves no trace in the state -/
-example : (runItemsF linkFS [.sub "/o/x.yaml".toList [.sub "../w/link/../deep2/y.yaml".toList []]] ⟨1, none⟩) = ⟨false, [resolve "/o/x.yaml".toList "/w".toList, resolve "../w/link/../deep2/y.yaml".toList "/o".toList], ⟨1, none⟩⟩ := by decide
+/-- a config whose directory does not exist fails and leaves the state as it was, also below another config -/
+example : (runItemsF linkFS [.sub "/o/x.yaml".toList [.path "p".toList, .sub "nodir/y.yaml".toList []]] ⟨1, some "/q".toList⟩)
+    = ⟨false, [resolve "/o/x.yaml".toList "/w".toList, resolve "p".toList "/o".toList], ⟨1, some "/q".toList⟩⟩ := by decide
 
 /-- **C19_fs_absolute_names_same**: the `absolute` a `Path` stores for a relative spelling given in directory `d`
 is, for the kernel, what the spelling itself named from `d` — and, being absolute, it names that from every
@@ -482,26 +489,19 @@ section ListFile
 variable {D : Type} [DecidableEq D]
 
 /-- **C19-listfile-reresolved, exactly**: a `List[Path]` value naming an existing line-per-path file in directory
-`d1` (the two `abspath` being harmless) is accepted if and only if the SAME spelling, resolved again from inside
-`d1`, leads to `d1` again -/
+`d1` is accepted if and only if the SAME spelling, resolved again from inside `d1`, leads to `d1` again -/
 theorem C19_fs_listfile_iff (fs : FS D) (ref : P) (rels : List P) (s : StF D) (d1 : D)
-    (h1 : trueDir fs s.cwd ref = some d1)
-    (hl1 : lexOK fs (dirname (absIn fs s.cwd ref)) = true) (hl2 : lexOK fs (dirname (absIn fs d1 ref)) = true) :
+    (h1 : trueDir fs s.cwd ref = some d1) :
     (runItemF fs (.listFile ref rels) s).ok = true ↔ trueDir fs d1 ref = some d1 := by
-  unfold trueDir at h1 ⊢
-  simp only [runItemF, h1, enterF_of_lexOK fs _ d1 hl1 h1]
-  by_cases h2 : resolveAbs fs (dirname (absIn fs d1 ref)) = some d1
-  · simp [h2, enterF_of_lexOK fs _ d1 hl2 h2]
-  · simp [h2]
+  rw [(runItemF_spec fs (.listFile ref rels) s).2.2.2]
+  simp [noFailItem, existItemF, h1]
 
 /-- an absolute spelling always is: the second resolution does not look at the directory it starts from -/
 theorem C19_fs_listfile_abs (fs : FS D) (ref : P) (rels : List P) (s : StF D) (d1 : D)
-    (habs : isAbs (stripFileScheme ref) = true) (h1 : trueDir fs s.cwd ref = some d1)
-    (hl : lexOK fs (dirname (absIn fs s.cwd ref)) = true) :
+    (habs : isAbs (stripFileScheme ref) = true) (h1 : trueDir fs s.cwd ref = some d1) :
     (runItemF fs (.listFile ref rels) s).ok = true := by
   have e : ∀ d, absIn fs d ref = stripFileScheme ref := by intro d; simp [absIn, mkPath, habs]
-  have hl' : lexOK fs (dirname (absIn fs d1 ref)) = true := by rw [e d1, ← e s.cwd]; exact hl
-  refine (C19_fs_listfile_iff fs ref rels s d1 h1 hl hl').mpr ?_
+  refine (C19_fs_listfile_iff fs ref rels s d1 h1).mpr ?_
   unfold trueDir at h1 ⊢
   rw [e d1, ← e s.cwd]; exact h1
 
